@@ -69,7 +69,7 @@ PROPS = {
              "caller's slice). Distinct: hash of the operation list.",
         state_measure="distinct vectors (type, array length, number of alias edges) over the 4 handles",
         probes=["caller_slice_mutated", "setbyindex_past_end", "clone_of_array", "equals_on_arrays", "mutate_with_alias_edges", "element_mutated_in_place", "nested_deeper_than_60"] + ["host_" + h for h in
-               ["int", "int32", "uint", "uint32", "int64", "float32", "float64", "bool", "string", "time", "duration", "array", "variant", "nil", "struct", "slice", "map", "goarray", "structslice", "ptr"]],
+               ["int", "int32", "uint", "uint32", "int64", "float32", "float64", "bool", "string", "time", "duration", "array", "variant", "nil", "struct", "slice", "map", "goarray", "structslice", "ptr", "ifacestruct", "func"]],
         real=["variants.Variant"],
         stub=[],
         assumptions=["value model with explicit aliasing: only clones and list setters must be independent; Assign and construction from another "
